@@ -7,13 +7,27 @@ from guarded import merge
 UNIT = dict(
     name='atomic_guarded',
     driver='drivers/atomic_guarded.cpp',
-    names='#define std_swap__vf_payload_ref_vf_payload_ref vf_payload_swap\n',
+    names='#define std_swap__vf_payload_ref_vf_payload_ref vf_payload_swap\n#define ext_exchange__vf_payload_ref_vf_payload_rref vf_payload_std_exchange\n',
     assumptions=[
         'std::mutex, lock_guard behave as the models in models/models.c; std::swap<T> is modelled by its specified effect (user move operations that may throw)',
         'linearizability argument: each operation is exactly one critical section of the object\'s mutex containing all its accesses (proved), hence it takes effect atomically at any point inside it (meta-theorem L)',
         'instantiation verified: T = abstract payload with value equality, M = std::mutex',
+        'T\'s move constructor may leave its source in an unspecified (moved-from) state; T\'s assignments leave their source intact and, when they throw, leave their target unchanged or marked torn',
     ],
-    ghost=GHOST)
+    ghost=GHOST + r'''
+/* std::exchange(obj, std::move(nv)): move-constructs the result from obj (obj is then moved-from: its
+   value is unspecified), then move-assigns nv to obj; either user operation may throw */
+void vf_payload__ctor_move(struct vf_payload *self, struct vf_payload *o);
+struct vf_payload *vf_payload__op_assign__1(struct vf_payload *self, struct vf_payload *o);
+void vf_payload_std_exchange(struct vf_payload *ret, struct vf_payload *obj, struct vf_payload *nv)
+{
+  vf_payload__ctor_move(ret, obj);
+  if (vf_exc) return;
+  obj->v = vf_nondet_int();          /* moved-from */
+  (void)vf_payload__op_assign__1(obj, nv);
+  if (vf_exc) { struct vf_payload *dead = ret; dead->life = VF_DEAD; }   /* the only copy of the old value dies with the unwinding */
+}
+''')
 
 FN = {}
 merge(FN, whole_object_ops('atomic_guarded', 'G(self)', GSET))
@@ -27,6 +41,8 @@ FN[r'atomic_guarded::exchange'] = dict(
     ensures=[('C15 C20', one_cs(False), 'exactly one critical section; released on normal and exceptional exit'),
              ('C15', '!vf_exc ==> (vf_ret->v == vf_cs_entry_v && vf_ret->life == VF_LIVE)', 'exchange returns the value it replaced'),
              ('C15', '!vf_exc ==> self->m_obj.v == __CPROVER_old(newValue->v)', 'and installs the new value'),
+             ('C20', 'vf_exc ==> (self->m_obj.v == vf_cs_entry_v || self->m_obj.torn || self->m_obj.v == __CPROVER_old(newValue->v))',
+              'if user code throws, the stored value is the old one, or already the complete new one (the throw came from building the return value), or whatever T\'s own failed assignment leaves (its guarantee) - never a moved-from husk'),
              ('C20', 'vf_user_threw == (vf_exc != 0)', 'an exception thrown by user code propagates; nothing else throws'),
              ('C15 C20', 'G(self)', 'wrapper invariant'), ('', G3, 'counters')],
     assigns='*vf_ret, *newValue, self->m_mutex, self->m_obj.v, self->m_obj.torn, ' + GHOST_ASSIGNS)
